@@ -203,7 +203,7 @@ func (r *renamer) term(t Term, env map[string]string, res map[string]bool) Term 
 		nx := r.pick(f)
 		ny := r.pick(f, nx)
 		resK := res
-		if r.isSelf(x.From) {
+		if r.isSelf(x.From) || res[r.nm(env, x.From)] {
 			resK = union(res, map[string]bool{ny: true})
 		}
 		return &Recv{X: nx, Y: ny, From: r.nm(env, x.From), XT: r.ty(x.XT), YT: r.ty(x.YT), K: r.term(x.K, with1(env, x.X, nx, x.Y, ny), resK)}
@@ -213,7 +213,7 @@ func (r *renamer) term(t Term, env map[string]string, res map[string]bool) Term 
 		n := &Case{From: r.nm(env, x.From)}
 		for _, b := range x.Brs {
 			np := ""
-			if r.opts.ShadowAlias && !r.isSelf(x.From) && len(res) > 0 && r.intn(2) == 1 {
+			if r.opts.ShadowAlias && !(r.isSelf(x.From) || res[r.nm(env, x.From)]) && len(res) > 0 && r.intn(2) == 1 {
 				f := r.forbiddenIn(b.K, env, b.Payload)
 				for _, a := range SortedKeys(res) {
 					if !f[a] && !keywords[a] {
@@ -227,7 +227,7 @@ func (r *renamer) term(t Term, env map[string]string, res map[string]bool) Term 
 				np = r.pick(union(r.forbiddenIn(b.K, env, b.Payload), res))
 			}
 			resK := res
-			if r.isSelf(x.From) {
+			if r.isSelf(x.From) || res[r.nm(env, x.From)] {
 				resK = union(res, map[string]bool{np: true})
 			}
 			n.Brs = append(n.Brs, Branch{Label: r.br(b.Label), Payload: np, PT: r.ty(b.PT), K: r.term(b.K, with1(env, b.Payload, np), resK)})
@@ -278,7 +278,7 @@ func (r *renamer) term(t Term, env map[string]string, res map[string]bool) Term 
 	case *Shift:
 		nx := r.pick(union(r.forbiddenIn(x.K, env, x.X), res))
 		resK := res
-		if r.isSelf(x.From) {
+		if r.isSelf(x.From) || res[r.nm(env, x.From)] {
 			resK = union(res, map[string]bool{nx: true})
 		}
 		return &Shift{X: nx, From: r.nm(env, x.From), XT: r.ty(x.XT), K: r.term(x.K, with1(env, x.X, nx), resK)}
